@@ -84,6 +84,82 @@ def _field_axioms(p, FE, A, B, C, b, eq, wit):
     return "ok"
 
 
+SECP_P = 2 ** 256 - 2 ** 32 - 977
+
+
+def _field_real_path(cls_name):
+    """the additive structure, constructor range and integer multiples on the REAL field prime 2^256 - 2^32 - 977 with 256-bit symbolic
+    representatives (products of two symbolic elements stay with the toy primes: non-linear)"""
+    m = pecc()
+    p = SECP_P
+    if cls_name == "S256Field":
+        mk = lambda v: m.S256Field(v)  # noqa
+    else:
+        mk = lambda v: m.FieldElement(v, p)  # noqa
+    a, b, c = (SI.var(n, 0, p - 1) for n in "abc")
+    wit = lambda env: {"p": p, "a": env["a"], "b": env["b"], "c": env["c"], "cls": cls_name}  # noqa
+    try:
+        A, B, C = mk(a), mk(b), mk(c)
+        eq = lambda x, y: x.num == y.num  # noqa
+        check(eq((A + B) + C, A + (B + C)), "addition not associative (real prime)", witness=wit)
+        check(eq(A + B, B + A), "addition not commutative (real prime)", witness=wit)
+        check(eq((A - B) + B, A), "(a-b)+b != a (real prime)", witness=wit)
+        check(eq(A - A, mk(0)), "a-a != 0 (real prime)", witness=wit)
+        check(eq(A + mk(0), A), "0 not neutral (real prime)", witness=wit)
+        for r in (A + B, A - B, 3 * A, (p - 1) * A):
+            check(s_and(r.num >= 0, r.num < p), "result not reduced (real prime)", witness=wit)
+        check(eq(3 * A, A + A + A), "__rmul__ by 3 (real prime)", witness=wit)
+        check(eq((p - 1) * A, mk(0) - A), "(p-1)*a != -a (real prime)", witness=wit)
+        check(eq(A * mk(1), A), "1 not neutral (real prime)", witness=wit)
+        check(eq(A * mk(p - 1), mk(0) - A), "a*(p-1) != -a (real prime)", witness=wit)
+        check(type(A + B).__name__ == cls_name, "result is not of the operand class", witness=wit)
+    except (ValueError, TypeError, ArithmeticError, AttributeError, IndexError) as ex:
+        check(False, f"a field operation on elements of the field raised {type(ex).__name__} (real prime)", witness=wit)
+        return "raised"
+    # constructor: exactly the representatives 0..p-1
+    v = SI.var("v", -(1 << 257), 1 << 257)
+    try:
+        mk(v)
+        check(s_and(v >= 0, v < p), "constructor accepted a representative outside [0, p-1]", witness=lambda env: {"p": p, "v": env["v"], "cls": cls_name})
+        return "ok"
+    except ValueError:
+        check(s_or(v < 0, v >= p), "constructor refused a representative inside [0, p-1]", witness=lambda env: {"p": p, "v": env["v"], "cls": cls_name})
+        return "refused"
+
+
+def ob_field_real():
+    runs = [sym_run(lambda: _field_real_path(c), mode="int", timeout_ms=60000, expect_classes=["ok", "refused"]) for c in ("FieldElement", "S256Field")]
+    m = merge_runs(runs)
+    m["sample"] = {"prime": "2^256 - 2^32 - 977", "a,b,c": "symbolic 256-bit representatives", "classes": ["FieldElement", "S256Field"]}
+    return m
+
+
+def replay_field_real(w):
+    from buidl import pecc as m
+    p = w["p"]
+    mk = (lambda v: m.S256Field(v)) if w.get("cls") == "S256Field" else (lambda v: m.FieldElement(v, p))
+    if "v" in w:
+        try:
+            mk(w["v"])
+            ok = True
+        except ValueError:
+            ok = False
+        return {"violated": ok != (0 <= w["v"] < p), "observed": f"{w.get('cls')}({w['v']:#x}) accepted={ok}"}
+    bad = []
+    try:
+        A, B, C = mk(w["a"]), mk(w["b"]), mk(w["c"])
+        Z = mk(0)
+        if (A + B) + C != A + (B + C) or A + B != B + A or (A - B) + B != A or A - A != Z or A + Z != A:
+            bad.append("additive axiom")
+        if (A + B).num != (w["a"] + w["b"]) % p or (A - B).num != (w["a"] - w["b"]) % p:
+            bad.append("value of a+b / a-b")
+        if 3 * A != A + A + A or (p - 1) * A != Z - A or A * mk(1) != A or A * mk(p - 1) != Z - A:
+            bad.append("integer multiple / multiplication by 1, -1")
+    except (ValueError, TypeError, ArithmeticError, AttributeError, IndexError) as ex:
+        bad.append(f"raised {ex!r}")
+    return {"violated": bool(bad), "observed": f"{w.get('cls')} over 2^256-2^32-977, a={w['a']:#x} b={w['b']:#x} c={w['c']:#x}: {bad}"}
+
+
 def ob_field(primes):
     runs = [sym_run(lambda: _field_path(p), timeout_ms=60000) for p in primes]
     m = merge_runs(runs)
@@ -563,6 +639,7 @@ def obligations(tier):
     fprimes = [5, 7, 11, 13] if q else [p for p in range(3, 32) if isprime(p)]
     for p in fprimes:
         obs.append(Ob("O1-field", ob_field, {"primes": (p,)}, replay="field", budget_s=1500))
+    obs.append(Ob("O1-field-real-prime", ob_field_real, replay="field_real", budget_s=1500))
     gprimes = [11, 13, 19] if q else [p for p in range(5, 62) if isprime(p)] + [223]
     for p in gprimes:
         obs.append(Ob("O2-group-law", ob_group, {"primes": (p,)}, replay="group", budget_s=2400))
